@@ -212,6 +212,9 @@ namespace bxdecay0 {
           throw std::logic_error("bxdecay0::decay0_generator::initialize: Invalid energy range !");
         }
       }
+      if ((!std::isnan(_energy_min_) || !std::isnan(_energy_max_)) && !dbd_supports_esum_range(_decay_dbd_mode_)) {
+        throw std::logic_error("bxdecay0::decay0_generator::initialize: DBD mode does not support an energy range !");
+      }
     }
     _init_(prng_);
 
